@@ -50,7 +50,14 @@ THEOREMS = [
     "Mpc.C10_history_int",
     "Mpc.C10_abs_words_agree_nonneg",
     "Mpc.C10_abs_words_run_wrong",
+    # degenerate session shapes: the message transcript of a run (Model/GmwMsgs.lean)
+    "Mpc.C10_input_share_one_message_per_pair",
+    "Mpc.C10_transcript_matched",
 ]
+
+# degenerate session shapes (harness/cmd/c10/degen.go), planned by case index
+DEGEN_CLASSES = ["zero-in-one", "zero-in-all-but-one", "compiled", "one-bit-in", "zero-and", "single-gate", "zero-gates",
+                 "zero-out", "irrelevant-party", "zero-in-all"]
 
 # input representations (harness/cmd/c10/repr.go): session classes and value classes
 REPR_CLASSES = ["sess-compiled", "sess-synthetic", "hist", "ext"]
@@ -171,7 +178,7 @@ def replay_request():
         f = sys.argv[sys.argv.index("--replay") + 1]
         f = f if os.path.isabs(f) else os.path.join(vlib.VERIF, f)
         fl = (json.load(open(f)).get("failure") or {})
-        m = re.match(r"hx-c10 (sess|hist|ext|repr) -seed (\d+) -n (\d+) -only (\d+) -tier \w+$", fl.get("rerun", ""))
+        m = re.match(r"hx-c10 (sess|hist|ext|repr|degen) -seed (\d+) -n (\d+) -only (\d+) -tier \w+$", fl.get("rerun", ""))
         return (m.group(1), int(m.group(2)), int(m.group(3)), int(m.group(4))) if m else None
     except Exception:
         return None
@@ -182,6 +189,9 @@ WHAT = {"tb": "tripleBatch c shares of every party (shadow IKNP instances)",
         "sess": "complete wire-share vectors, consumed triple words and outputs of every party",
         "ext": "extreme circuits (AND depth / level width / outputs / input width across 2^8 and 2^16): gate levels of the real "
                "AssignLevels, level oracle, every party's outputs; share-level run ops where the pool snapshot covers the run",
+        "degen": "degenerate session shapes (arguments of 0 bits / 1 bit, circuits without AND gates / gates / outputs, one gate, "
+                 "a party no gate reads): complete wire stores, consumed words and outputs of every party (run ops) and the bytes "
+                 "every party sent on its online connections during Run = sentBytes of the model's message transcript (msgs ops)",
         "repr": "input representations: sessions, histories and wide-input circuits whose inputs are IOArg.Parse texts / direct "
                 "*big.Int values of any sign and magnitude (runi / histi / lvli: the model reads the signed decimals with "
                 "big.Int.Xor / big.Int.Bit semantics): complete wire stores, consumed words and outputs of every party",
@@ -219,7 +229,8 @@ def run(ctx):
                                   "networks; the oracle fails again." % (mode, case, seed))
             print("the replayed case no longer fails; running the full check")
         # ext first: the boundary cases are few and decide fast (n = the whole plan of the tier)
-        plan = [("ext", 1000, ctx.seed), ("repr", 48 if quick else 240, ctx.seed), ("tb", 24 if quick else 200, ctx.seed),
+        # degen first: a protocol that does not complete on a degenerate shape is decided in about a minute
+        plan = [("degen", 60 if quick else 400, ctx.seed), ("ext", 1000, ctx.seed), ("repr", 48 if quick else 240, ctx.seed), ("tb", 24 if quick else 200, ctx.seed),
                 ("pool", 1000 if quick else 8000, ctx.seed),
                 ("sess", 84 if quick else 330, ctx.seed), ("hist", 28 if quick else 160, ctx.seed)]
         if not quick:
@@ -252,6 +263,20 @@ def run(ctx):
                    c.get("ext_lvl_ops", 0) >= 20 and c.get("sess_level_oracle_circuits", 0) > 0 and
                    c.get("hist_level_oracle_circuits", 0) > 0,
                    str({k: v for k, v in c.items() if k.startswith("ext_") and "size" not in k}))
+        dg = lambda k: c.get("degen_" + k, 0)  # noqa: E731
+        ctx.oblige("degenerate session shapes: every class (%s) ran and completed with correct outputs; a party with an "
+                   "argument of 0 bits as first, middle and last party and in sessions of 2, 3, 4 and 5 parties; sessions where "
+                   "all but one party have 0 input bits; compiled programs with a 0-bit argument; circuits with 0 AND gates, 0 "
+                   "gates, 1 gate, 0 outputs; run and msgs ops were replayed on the model" % ", ".join(DEGEN_CLASSES),
+                   all(dg("cases_ok_" + k) > 0 for k in DEGEN_CLASSES) and
+                   all(dg("zero_in_party_" + k) > 0 for k in ("first", "middle", "last")) and
+                   all(dg("zero_in_parties_%d" % k) > 0 for k in (2, 3, 4, 5)) and
+                   dg("sessions_all_but_one_zero_bit") > 0 and dg("sessions_all_one_bit") > 0 and
+                   dg("sessions_zero_and") > 0 and dg("sessions_zero_gates") > 0 and dg("sessions_single_gate") > 0 and
+                   dg("sessions_zero_outputs") > 0 and dg("run_ops") > 0 and dg("msgs_ops") > 0,
+                   str({k: v for k, v in c.items() if k.startswith("degen_") and "triple" not in k}))
+        ctx.oblige("degenerate session shapes: a compiled GMW program with a 0-bit argument ([0]byte) ran as a session",
+                   dg("kind_degen-compiled") > 0 and dg("cases_ok_compiled") > 0, str(dg("cases_ok_compiled")))
         hc = {k: v for k, v in c.items() if k.startswith("hist_")}
         ctx.oblige("histories on one Network: 2, 3, 4 and 5 parties; 2..5 calls; every relation between consecutive circuits "
                    "(%s) ran; consecutive DIFFERENT circuits of the same AND depth, a smaller and a larger circuit after "
@@ -285,7 +310,7 @@ def run(ctx):
         if ctx.widen:
             # widened search for a concrete failing input
             for s in range(ctx.seed + 7000, ctx.seed + 7003):
-                for mode, n in (("ext", 1000), ("repr", 96), ("tb", 60), ("sess", 60), ("hist", 40)):
+                for mode, n in (("degen", 120), ("ext", 1000), ("repr", 96), ("tb", 60), ("sess", 60), ("hist", 40)):
                     ops, out, meta = ctx.run_hx(mode, n, seed=s, tag="-widen", timeout=1700)
                     ctx.absorb_meta(meta, prefix="widen_")
                 if ctx.fails:
@@ -314,6 +339,11 @@ def run(ctx):
         "unsigned / bool / struct / array arguments, synthetic circuits with re-declared arguments incl. 63..130-bit "
         "ones, histories of 2..5 calls, wide-in circuits of 257 / 65537 bits); one party per call (index = case mod "
         "parties) is forced to hold a negative *big.Int; reference = Circuit.Compute on the same member values. "
+        "degen: degenerate session shapes planned by case index (class = case mod 10: " + ", ".join(DEGEN_CLASSES) + "; parties = "
+        "2 + (case/10) mod 4; the position of the 0-bit / only / unread argument walks first..last with the case index; "
+        "every 4th round in race mode): synthetic layered circuits with the degenerate dimension forced, MPCL programs with "
+        "[0]byte / [0]uintN / empty-struct / unused / 1-bit arguments and constant / pass-through results compiled for the "
+        "GMW target; judged as sess, plus Stats().Sent of every party over Run = the model's transcript. "
         "distinct = distinct op lines")
     ctx.assumptions += [
         "the bit-COT correlation r = s xor Delta0*b is a hypothesis of C10_triples_valid (property C06 proves it for the "
@@ -325,6 +355,7 @@ def run(ctx):
         "hang classification: a session is a suspect when no byte moved on any connection, no pool level changed and no "
         "party finished a phase for 60 s (or it ran 10 min); it is reported as c10-timeout only after a re-run ALONE "
         "(no other session in the harness) shows no progress for 120 s; nothing is launched after a confirmed hang",
+        "degen sessions move a few hundred bytes: first-run stall limit 20 s, alone re-run 45 s (same progress signals)",
         "the leader's listener exists before a peer dials it (a peer that finds no leader returns an error by design)",
         "no-overflow side condition: the level theorems count in Nat; AssignLevels counts in circuit.Level = uint32. "
         "C10_levels_u32 / C10_levels_counter_exact: for AND depth < 2^32 the 32-bit loop IS the Nat loop; "
@@ -355,6 +386,11 @@ def run(ctx):
         "histories and wide-input circuits for negative and oversized *big.Int inputs (C10_outputs_int, "
         "C10_outputs_args, C10_history_int: every party's output = compute on the Bit()s of the integers, any sign and "
         "magnitude; C10_abs_words_run_wrong: a reader of the magnitude words returns another value on -3). "
+        "(g) degenerate shapes: sessions with 0-bit / 1-bit arguments, circuits without AND gates / gates / outputs complete "
+        "with correct outputs, the model reproduces their wire stores, and the bytes every party sent during Run equal "
+        "sentBytes of the model's transcript, in which every ordered pair of parties exchanges exactly one input-share "
+        "message whatever the argument widths (C10_input_share_one_message_per_pair) and every receive is matched "
+        "(C10_transcript_matched). "
         "Oracle on the real code: gate levels after AssignLevels(TargetGMW) are a topological schedule of Network.run "
         "(every circuit run), results = Circuit.Compute at every party, xor of shares = reference value on every wire, "
         "triple relation on pool snapshots / Pool.Get output / tripleBatch output, lockstep consumption, completion under a "
